@@ -242,6 +242,12 @@ func c16Enumerate(r *rt.Rec, first int, maxLen int, rng *rand.Rand) {
 // c16Printed: the printed form of a value without embedded double quotes is
 // one token carrying exactly that text.
 func c16Printed(r *rt.Rec, rng *rand.Rand, n int) {
+	// values that lexed as one token on their own, to be lexed again in pairs
+	type printed struct {
+		kind lexer.TokenType
+		text string
+	}
+	var good []printed
 	check := func(kind lexer.TokenType, text, what string, cls string) {
 		r.Note(text)
 		r.Eval(1)
@@ -253,6 +259,33 @@ func c16Printed(r *rt.Rec, rng *rand.Rand, n int) {
 		if len(toks) != 2 || toks[0].Type != kind || toks[0].Text != text || toks[1].Type != lexer.ItemEOF {
 			r.Violation("lex-printed/"+what+"/"+cls, fmt.Sprintf("printed %s does not lex to [%s with that text, EOF]: got %s", what, kind, tokString(toks)), text)
 			return
+		}
+		// the same value after another printed value (the lexer must not carry
+		// anything over from one value to the next)
+		if len(good) > 0 && !strings.ContainsAny(text, " \t\n") {
+			prev := good[rng.Intn(len(good))]
+			for _, sep := range []string{" ", "\n"} {
+				pair := prev.text + sep + text
+				r.Note(pair)
+				r.Eval(1)
+				pt, ok := gram.Lex(pair, 0)
+				if !ok {
+					r.Violation("lexer-no-termination", "two printed values do not terminate", pair)
+					break
+				}
+				if len(pt) != 3 || pt[0].Type != prev.kind || pt[0].Text != prev.text || pt[1].Type != kind || pt[1].Text != text || pt[2].Type != lexer.ItemEOF {
+					r.Violation("lex-printed-pair/"+what+"/"+cls, fmt.Sprintf("two printed values, each of which lexes to one token on its own, do not lex to [%s, %s, EOF] when written one after the other: got %s", prev.kind, kind, tokString(pt)), pair)
+					break
+				}
+			}
+			r.Count("printed_value_pairs", 1)
+		}
+		if !strings.ContainsAny(text, " \t\n") {
+			if len(good) < 64 {
+				good = append(good, printed{kind, text})
+			} else {
+				good[rng.Intn(64)] = printed{kind, text}
+			}
 		}
 		if gen.Interesting(text) || strings.ContainsAny(text, `\[]<>@^: `) {
 			r.Nontrivial(text)
